@@ -526,6 +526,14 @@ def run(chk, prog, tier):
     chk.guard('lookups', check_lookups, chk, prog, env, model, dtor)
     chk.guard('index walk', check_index_walk, chk, prog, env, model, dtor)
     chk.guard('provider tag', check_provider_tag, chk, prog, env, model)
+
+    # "loads append in document order ... no sequence touches freed memory or leaks": the loaders' own paths (rules shared with C07)
+    def loaders():
+        from props import c07
+        t_, b_, sn, sb = c07.loaders_pass(chk, prog, env, model)
+        chk.rule('C07.memory', 'JWK loaders, all paths: no leak / wrong-family / double release / use after release', t_, b_, floor=20)
+        chk.rule('C07.shape', 'not JSON => set error and no item; otherwise each parsed item is appended exactly once', sn, sb, floor=6)
+    chk.guard('loaders', loaders)
     chk.assumptions += ['list semantics under arbitrary operation sequences and the heap-shape invariants of ll.h are NOT decided (loops over '
                         'runtime data); the index walk is decided as a per-iteration shape (start 0, step 1, full-width compare), not by induction']
     return chk.finish(
